@@ -2,7 +2,9 @@
 Model of the stream adapter of the tar iterator (property C12):
 
   lib/tar/src/iterator.c   is_sparse_region, drop_parent, strm_get_buffered_data, strm_advance_buffer,
-                           strm_destroy, it_open_file_ro, the head of it_next (skip record + padding)
+                           strm_destroy, it_open_file_ro, the head of it_next (skip record + padding) and its
+                           `fail:` exit with drain_compressed_stream, the two ways tar_open_stream sets up
+                           `tar->stream` / `tar->compressed`
   lib/tar/src/read_header.c:190-214   only the part of `read_header` that recognises the end of the archive
 
 `tar_istream_t` is what tar2sqfs reads the content of an archive member through.  It is *not* a client of
@@ -18,6 +20,7 @@ correspondence harness checks that the real `read_header` decodes exactly that g
 header block.  Sizes are `Nat` (`sqfs_u64`/`size_t` in C; nothing near 2^64 is exercised).
 -/
 import Sqfs.Model.IoLoops
+import Sqfs.Model.XfrmStream
 namespace Sqfs.IoLoops
 
 /-- `sparse_map_t`: a data region of a sparse member (`offset`, `count`) -/
@@ -51,6 +54,7 @@ structure TarIt (σ : Type) where
   padding : Nat
   sparse : List SparseEnt  -- `tar->current.sparse`
   lastSparse : Bool
+  compressed : Bool := false  -- `tar->compressed`: `tar_open_stream` put a decompressor around the input
 
 /-- `tar_istream_t`. `crashed` is model-only: `strm_advance_buffer` has dereferenced `tar->parent == NULL`. -/
 structure TarStrm (σ : Type) where
@@ -143,7 +147,7 @@ def TarIt.setMember {σ : Type} (it : TarIt σ) (g : MemberGeom) : TarIt σ :=
             padding := if g.recordSize % 512 > 0 then 512 - g.recordSize % 512 else 0, sparse := g.sparse }
 
 /-- `tar_open_stream` leaves this iterator (all zero, `calloc`) around the archive stream -/
-def TarIt.init {σ : Type} (s : σ) : TarIt σ := ⟨s, .ok, false, 0, 0, 0, 0, [], false⟩
+def TarIt.init {σ : Type} (s : σ) : TarIt σ := ⟨s, .ok, false, 0, 0, 0, 0, [], false, false⟩
 
 /-! ### the end-of-archive part of `read_header` and the head of `it_next` -/
 
@@ -169,6 +173,17 @@ def readHeaderHead {σ : Type} (I : StreamI σ) : Nat → σ → Bool → OS →
         (if prevZero then (.eof, s', os') else readHeaderHead I fuel s' true os')
       else (.header d, s', os')
 
+/-- `drain_compressed_stream` (iterator.c:181-194): read the archive stream to its end, window by window
+(`get_buffered_data(1)`, `advance_buffer(size)`); a read or decompressor error is returned, the end is 0.  The C loop
+is a `for (;;)`; the model gives it fuel (`Err.fuel` when it runs out; `tarNext` hands it the stream's own bound). -/
+def drainLoop {σ : Type} (I : StreamI σ) : Nat → σ → OS → Err × σ × OS
+  | 0, s, os => (.fuel, s, os)
+  | fuel + 1, s, os =>
+    match I.get s 1 os with
+    | (.fail e, _, s', os') => (e, s', os')                                   -- ret < 0: return ret
+    | (.eof, _, s', os') => (.ok, s', os')                                    -- ret > 0: return 0
+    | (.ok, w, s', os') => drainLoop I fuel (I.adv s' w.length) os'           -- advance_buffer(strm, size)
+
 /-- what `it_next` returns, as far as this model goes -/
 inductive NextRet where
   | sequence             -- SQFS_ERROR_SEQUENCE (a member stream is still open)
@@ -176,8 +191,10 @@ inductive NextRet where
   | header (d : Bytes)   -- `read_header` met a header block
   deriving DecidableEq, Repr
 
-/-- The head of `it_next` (iterator.c:171-198): skip what is left of the record, skip the padding, read the next
-header.  A block that is neither zero nor short ends the model's knowledge (`header`). -/
+/-- The head of `it_next` (iterator.c:196-227) and its `fail:` exit (iterator.c:267-275): skip what is left of the
+record, skip the padding, read the next header.  A block that is neither zero nor short ends the model's knowledge
+(`header`).  At the end of the archive (`read_header` returned 1) with a compressed input (`tar->compressed`) the
+rest of the stream is drained first and an error met there becomes the result and the sticky state. -/
 def tarNext {σ : Type} (I : StreamI σ) (it : TarIt σ) (os : OS) : NextRet × TarIt σ × OS :=
   if it.locked then (.sequence, it, os) else
   if it.state ≠ .ok then (.state it.state, it, os) else
@@ -187,26 +204,55 @@ def tarNext {σ : Type} (I : StreamI σ) (it : TarIt σ) (os : OS) : NextRet × 
     | (.ok, s2, os2) =>
       match readHeaderHead I 3 s2 false os2 with
       | (.header d, s3, os3) => (.header d, { it with stream := s3 }, os3)
-      | (.eof, s3, os3) => (.state .eof, { it with stream := s3, state := .eof }, os3)
+      | (.eof, s3, os3) =>
+        if it.compressed then                                                   -- ret > 0 && tar->compressed
+          match drainLoop I (I.bound s3 + 2) s3 os3 with
+          | (.ok, s4, os4) => (.state .eof, { it with stream := s4, state := .eof }, os4)
+          | (e, s4, os4) => (.state (.err e), { it with stream := s4, state := .err e }, os4)
+        else (.state .eof, { it with stream := s3, state := .eof }, os3)
       | (.fail, s3, os3) => (.state .minus1, { it with stream := s3, state := .minus1 }, os3)
     | (e, s2, os2) => (.state (.err e), { it with stream := s2, state := .err e }, os2)
   | (e, s1, os1) => (.state (.err e), { it with stream := s1, state := .err e }, os1)
 
-/-- One archive member from `tar_open_stream` to the `it_next` after it, as tar2sqfs drives the iterator and as
-the correspondence harness does: probe (`get_buffered_data(512)`, result only looked at), `it_next` (the header
-block; the geometry it decodes is the parameter `g`), `open_file_ro`, the client's operations on the member
-stream, `sqfs_drop(stream)`, `it_next`.  Result: status of the first `it_next`, the observations, status of the
-second `it_next`, the iterator, client output stream and line counter. -/
+/-- One archive member from a fresh iterator to the `it_next` after it, as tar2sqfs drives the iterator and as the
+correspondence harness does: `it_next` (the header block; the geometry it decodes is the parameter `g`),
+`open_file_ro`, the client's operations on the member stream, `sqfs_drop(stream)`, `it_next`.  Result: status of the
+first `it_next`, the observations, status of the second `it_next`, the iterator, client output stream. -/
+def tarRunFrom {σ : Type} (I : StreamI σ) (it0 : TarIt σ) (g : MemberGeom) (o : OStream) (ops : List Op) (os0 : OS) :
+    NextRet × List Obs × Option NextRet × TarIt σ × OStream × OS :=
+  match tarNext I it0 os0 with
+  | (.header d, it1, os1) =>
+    match runOps (tarStream I) ⟨tarOpen (it1.setMember g), o, 0⟩ ops os1 with
+    | (obs, c, os2) =>
+      match tarNext I (tarClose c.s) os2 with
+      | (r2, it2, os3) => (.header d, obs, some r2, it2, c.o, os3)
+  | (r1, it1, os1) => (r1, [], none, it1, o, os1)
+
+/-- `tar_open_stream` when the probe finds a tar archive (or nothing it knows): probe (`get_buffered_data(512)`,
+result only looked at), the iterator reads from the stream it was given, `compressed` stays false; then the member
+run. -/
 def tarMemberRun {σ : Type} (I : StreamI σ) (s : σ) (g : MemberGeom) (o : OStream) (ops : List Op) (os : OS) :
     NextRet × List Obs × Option NextRet × TarIt σ × OStream × OS :=
   match I.get s 512 os with                                                     -- tar_open_stream: probe
+  | (_, _, s0, os0) => tarRunFrom I (TarIt.init s0) g o ops os0
+
+/-- Which way `tar_open_stream` goes (iterator.c:420-432): the probe must succeed (`ret == 0`) and its window must be
+recognised as compressed — `isZ` stands for "`tar_probe` says no and `xfrm_compressor_id_from_magic` says yes". -/
+def tarOpenDetect {σ : Type} (I : StreamI σ) (s : σ) (isZ : Bytes → Bool) (os : OS) : Bool :=
+  match I.get s 512 os with
+  | (.ok, w, _, _) => isZ w
+  | _ => false
+
+/-- `tar_open_stream` when the probe window carries the magic of a compressor (iterator.c:420-449): the probe is made
+on the *raw* stream, then the iterator reads through `istream_xfrm_create(strm, decompressor)` — a fresh transforming
+istream (codec in its initial state `k0`, empty buffer) around the raw stream as the probe left it — and
+`compressed = true`; then the member run.  Which way `tar_open_stream` goes is a function of the probe window
+(`tar_probe`, `xfrm_compressor_id_from_magic`: not modelled; the harness checks that the code took this branch). -/
+def tarMemberRunZ {σ κ : Type} (I : StreamI σ) (C : Codec κ) (k0 : κ) (BX limit : Nat) (s : σ) (g : MemberGeom)
+    (o : OStream) (ops : List Op) (os : OS) :
+    NextRet × List Obs × Option NextRet × TarIt (XStream σ κ) × OStream × OS :=
+  match I.get s 512 os with                                                     -- tar_open_stream: probe (raw stream)
   | (_, _, s0, os0) =>
-    match tarNext I (TarIt.init s0) os0 with
-    | (.header d, it1, os1) =>
-      match runOps (tarStream I) ⟨tarOpen (it1.setMember g), o, 0⟩ ops os1 with
-      | (obs, c, os2) =>
-        match tarNext I (tarClose c.s) os2 with
-        | (r2, it2, os3) => (.header d, obs, some r2, it2, c.o, os3)
-    | (r1, it1, os1) => (r1, [], none, it1, o, os1)
+    tarRunFrom (xfrmStream I C BX limit) { TarIt.init (⟨s0, k0, 0, []⟩ : XStream σ κ) with compressed := true } g o ops os0
 
 end Sqfs.IoLoops
